@@ -156,3 +156,120 @@ func VxH_C19_pad_nosign() {
 	}
 	vx.Assert("last-is-symbol", int(s[len(s)-1]) == sym)
 }
+
+// fallback chains that leave a style through its *algorithm* (fixed out of symbols, alphabetic
+// and additive unable to represent the value) rather than through its range: every chain,
+// cyclic ones included, terminates and prints what the first style able to represent the
+// value prints (decimal when the chain loops, reaches decimal or names a missing style).
+func VxH_C19_fallback_cycles() {
+	names := []string{"x", "y", "z", "decimal", "missing"}
+	styles := 2 + vx.Tier()
+	cs := CounterStyle{"decimal": vxDecimal()}
+	kind := map[string]int{}
+	fallback := map[string]string{}
+	for _, n := range names[:styles] {
+		var d CounterStyleDescriptors
+		kind[n] = vx.Choose("kind_"+n, 3)
+		switch kind[n] {
+		case 0:
+			d.System = CounterStyleSystem{"", "fixed", 1}
+			d.Symbols = vxSyms(1)
+		case 1:
+			d.System = CounterStyleSystem{"", "alphabetic", -1}
+			d.Symbols = vxSyms(2)
+		default:
+			d.System = CounterStyleSystem{"", "additive", -1}
+			d.AdditiveSymbols = []pr.IntNamedString{{Int: 2, NamedString: vxStr("b")}}
+		}
+		d.Range.Auto = true
+		choices := append(append([]string{}, names[:styles]...), "decimal", "missing")
+		fallback[n] = choices[vx.Choose("fallback_"+n, len(choices))]
+		d.Fallback = fallback[n]
+		d.Negative = [2]pr.NamedString{vxStr("-"), vxStr("")}
+		cs[n] = d
+	}
+	v := vx.Int("v", 0, 4)
+	got := cs.RenderValue(v, "x")
+	vx.Reach("terminated")
+	representable := func(n string) bool {
+		switch kind[n] {
+		case 0:
+			return v == 1
+		case 1:
+			return v >= 1
+		default:
+			// the additive algorithm of Counter Styles 3 returns the empty string for 0 when there
+			// is no zero-weight tuple ("the loop ended because value is 0")
+			return v%2 == 0
+		}
+	}
+	final := "decimal"
+	seen := map[string]bool{}
+	for cur := "x"; ; cur = fallback[cur] {
+		if _, user := kind[cur]; !user || seen[cur] {
+			break
+		}
+		seen[cur] = true
+		if representable(cur) {
+			final = cur
+			break
+		}
+	}
+	want := cs.RenderValue(v, "decimal")
+	if final != "decimal" {
+		vx.Reach("user-style-renders")
+		d := cs[final]
+		d.Fallback = "decimal"
+		want = CounterStyle{"s": d, "decimal": vxDecimal()}.RenderValue(v, "s")
+	}
+	vx.ObserveString("got", got)
+	vx.ObserveString("want", want)
+	vx.Assert("fallback-chain-result", got == want)
+}
+
+// extends: the extending style takes the algorithm (and symbols) of the extended one and every
+// descriptor it does not declare itself; `range: auto` is a declaration.
+func VxH_C19_extends_merge() {
+	var base CounterStyleDescriptors
+	base.System = CounterStyleSystem{"", "numeric", -1}
+	base.Symbols = []pr.NamedString{vxStr("0"), vxStr("1"), vxStr("2")}
+	base.Range.Ranges = [][2]int{{1, 3}}
+	base.Negative = [2]pr.NamedString{vxStr("~"), vxStr("")}
+	base.Pad = pr.IntNamedString{NamedString: vxStr("_"), Int: 2}
+	base.Fallback = "decimal"
+	var x CounterStyleDescriptors
+	x.System = CounterStyleSystem{"extends", "y", -1}
+	merged := base
+	switch vx.Choose("range", 3) {
+	case 1:
+		x.Range.Auto = true
+		merged.Range = x.Range
+	case 2:
+		x.Range.Ranges = [][2]int{{-2, 0}, {5, 7}}
+		merged.Range = x.Range
+	}
+	if vx.Choose("pad", 2) == 1 {
+		x.Pad = pr.IntNamedString{NamedString: vxStr("*"), Int: 3}
+		merged.Pad = x.Pad
+	}
+	if vx.Choose("negative", 2) == 1 {
+		x.Negative = [2]pr.NamedString{vxStr("!"), vxStr("?")}
+		merged.Negative = x.Negative
+	}
+	if vx.Choose("fallback", 2) == 1 {
+		x.Fallback = "w"
+		merged.Fallback = "w"
+	}
+	var w CounterStyleDescriptors
+	w.System = CounterStyleSystem{"", "cyclic", -1}
+	w.Symbols = vxSyms(1)
+	w.Range.Auto = true
+	cs := CounterStyle{"x": x, "y": base, "w": w, "decimal": vxDecimal()}
+	v := vx.Int("v", -3, 8)
+	got := cs.RenderValue(v, "x")
+	vx.Reach("rendered")
+	want := CounterStyle{"s": merged, "w": w, "decimal": vxDecimal()}.RenderValue(v, "s")
+	vx.ObserveString("got", got)
+	vx.ObserveString("want", want)
+	vx.Assert("extends-merges-undeclared-descriptors-only", got == want)
+}
